@@ -2,7 +2,7 @@
    _is_initial_fit, dispatch to the implementation object, output shapes.
    A call is an [op]; [step] returns the new state and what the caller sees. *)
 From Coq Require Import ZArith List Bool.
-From MW Require Import Num Assoc Rng CF Warm Matrix Lin.
+From MW Require Import Num Assoc Rng CF Warm Matrix Lin Nbr Clu Tree.
 Import ListNotations.
 
 Section Mab.
@@ -10,14 +10,23 @@ Context {R A G : Type} (N : Num R) (aeqb : A -> A -> bool) (RG : RngOps R G).
 
 Definition ctxs := list (list R).
 
+(* answers of the third-party libraries for one call (see DESIGN.md 2.4) *)
+Record oracle := mkOracle {
+  o_knn : list (list nat);         (* per query row: np.argpartition(d, k-1)[:k] *)
+  o_labels : list nat;             (* kmeans.labels_ after kmeans.fit(all stored contexts) *)
+  o_assign : list nat;             (* kmeans.predict(query rows) *)
+  o_leaf : A -> list R -> nat;     (* arm_to_tree[a].apply([x])[0] *)
+  o_sizes : list nat               (* the partition of the query rows into chunks (n_jobs) *)
+}.
+
 Inductive op : Type :=
-| Fit (ds : list A) (rs : list R) (cx : option ctxs)
-| PartialFit (ds : list A) (rs : list R) (cx : option ctxs)
+| Fit (ds : list A) (rs : list R) (cx : option ctxs) (orc : oracle)
+| PartialFit (ds : list A) (rs : list R) (cx : option ctxs) (orc : oracle)
 | AddArm (a : A) (bz : option (A -> R -> R))
 | RemoveArm (a : A)
 | WarmStart (keys : list A) (raw : A -> A -> R) (q : R)
-| Predict (cx : option ctxs)
-| PredictExp (cx : option ctxs).
+| Predict (cx : option ctxs) (orc : oracle)
+| PredictExp (cx : option ctxs) (orc : oracle).
 
 (* what the caller observes; expectations are [option R] because neighbourhood
    policies report NaN (None) for an empty neighbourhood *)
@@ -31,7 +40,10 @@ Inductive out : Type :=
 
 Inductive imp : Type :=
 | ICf (s : @cf R A)
-| ILin (s : @lin R A G).
+| ILin (s : @lin R A G)
+| INbr (s : @nbr R A G)
+| IClu (s : @clu R A G)
+| ITree (s : @tree R A).
 
 Record mab := mkMab {
   m_imp : imp;
@@ -39,18 +51,28 @@ Record mab := mkMab {
   m_rng : G             (* the generator object shared by MAB, _imp and the learning policy *)
 }.
 
-Definition imp_arms (i : imp) : list A := match i with ICf s => c_arms s | ILin s => l_arms s end.
+Definition imp_arms (i : imp) : list A :=
+  match i with
+  | ICf s => c_arms s | ILin s => l_arms s | INbr s => n_arms s | IClu s => k_arms s | ITree s => t_arms s
+  end.
 Definition m_arms (m : mab) : list A := imp_arms (m_imp m).
 
-Definition is_contextual (i : imp) : bool := match i with ICf _ => false | ILin _ => true end.
+Definition is_contextual (i : imp) : bool := match i with ICf _ => false | _ => true end.
 
 Definition is_binary (x : R) : bool := eqb N x (zero N) || eqb N x (one N).
+
+Definition cf_ts_nobinz (s : @cf R A) : bool :=
+  match c_kind s, c_binz s with KThompson, None => true | _, _ => false end.
+Definition lp_ts_nobinz (l : @lp R A G) : bool := match l with LCf s => cf_ts_nobinz s | LLin _ => false end.
 
 (* learning_policy property: ThompsonSampling with binarizer None *)
 Definition ts_needs_binary (i : imp) : bool :=
   match i with
-  | ICf s => match c_kind s, c_binz s with KThompson, None => true | _, _ => false end
+  | ICf s => cf_ts_nobinz s
   | ILin _ => false
+  | INbr s => lp_ts_nobinz (n_lp s)
+  | IClu s => match k_lps s with l :: _ => lp_ts_nobinz l | [] => false end
+  | ITree s => cf_ts_nobinz (t_lp s)
   end.
 
 Definition ctx_len (cx : option ctxs) : option nat := option_map (@length _) cx.
@@ -71,43 +93,76 @@ Definition octx (cx : option ctxs) : ctxs := match cx with Some c => c | None =>
 
 (* fit / partial_fit of the implementation object; the flag is false when an exception
    escapes from inside training (the returned state is the partially updated one) *)
-Definition imp_fit (i : imp) (g : G) (ds : list A) (rs : list R) (cx : option ctxs) : imp * bool :=
+Definition imp_fit (i : imp) (g : G) (ds : list A) (rs : list R) (cx : option ctxs) (orc : oracle) : imp * G * bool :=
   match i with
-  | ICf s => (ICf (cf_fit N aeqb s ds rs), true)
-  | ILin s => let (s', ok) := lin_fit N aeqb s g ds rs (octx cx) in (ILin s', ok)
+  | ICf s => (ICf (cf_fit N aeqb s ds rs), g, true)
+  | ILin s => let (s', ok) := lin_fit N aeqb s g ds rs (octx cx) in (ILin s', g, ok)
+  | INbr s => let (s', g') := nbr_fit N RG s g ds rs (octx cx) in (INbr s', g', true)
+  | IClu s => let (s', ok) := clu_fit N aeqb s g ds rs (octx cx) (o_labels orc) in (IClu s', g, ok)
+  | ITree s => (ITree (tree_fit aeqb s (o_leaf orc) ds rs (octx cx)), g, true)
   end.
-Definition imp_partial_fit (i : imp) (g : G) (ds : list A) (rs : list R) (cx : option ctxs) : imp * bool :=
+Definition imp_partial_fit (i : imp) (g : G) (ds : list A) (rs : list R) (cx : option ctxs) (orc : oracle) : imp * G * bool :=
   match i with
-  | ICf s => (ICf (cf_partial_fit N aeqb s ds rs), true)
-  | ILin s => let (s', ok) := lin_partial_fit N aeqb s g ds rs (octx cx) in (ILin s', ok)
+  | ICf s => (ICf (cf_partial_fit N aeqb s ds rs), g, true)
+  | ILin s => let (s', ok) := lin_partial_fit N aeqb s g ds rs (octx cx) in (ILin s', g, ok)
+  | INbr s => (INbr (nbr_partial_fit N s ds rs (octx cx)), g, true)
+  | IClu s => let (s', ok) := clu_partial_fit N aeqb s g ds rs (octx cx) (o_labels orc) in (IClu s', g, ok)
+  | ITree s => (ITree (tree_partial_fit aeqb s (o_leaf orc) ds rs (octx cx)), g, true)
   end.
 Definition imp_add_arm (i : imp) (a : A) bz : imp :=
   match i with
   | ICf s => ICf (cf_add_arm N aeqb s a bz)
   | ILin s => ILin (lin_add_arm N aeqb s a)
+  | INbr s => INbr (nbr_add_arm N aeqb s a bz)
+  | IClu s => IClu (clu_add_arm N aeqb s a bz)
+  | ITree s => ITree (tree_add_arm N aeqb s a bz)
   end.
 Definition imp_remove_arm (i : imp) (a : A) : imp :=
   match i with
   | ICf s => ICf (cf_remove_arm N aeqb s a)
   | ILin s => ILin (lin_remove_arm aeqb s a)
+  | INbr s => INbr (nbr_remove_arm N aeqb s a)
+  | IClu s => IClu (clu_remove_arm N aeqb s a)
+  | ITree s => ITree (tree_remove_arm N aeqb s a)
   end.
-Definition imp_is_ts (i : imp) : bool :=
+
+Definition cf_is_ts (s : @cf R A) : bool := match c_kind s with KThompson => true | _ => false end.
+(* add_arm's binarizer check: isinstance(_imp, TS) or isinstance(_imp.lp, TS); _Clusters has
+   no attribute lp, so the check raises for Clusters whenever a binarizer is given *)
+Definition binz_allowed (i : imp) : bool :=
   match i with
-  | ICf s => match c_kind s with KThompson => true | _ => false end
+  | ICf s => cf_is_ts s
   | ILin _ => false
+  | INbr s => match n_lp s with LCf c => cf_is_ts c | LLin _ => false end
+  | IClu _ => false
+  | ITree s => cf_is_ts (t_lp s)
   end.
 
 Definition some_exp (d : list (A * R)) : list (A * option R) := map (fun kv => (fst kv, Some (snd kv))) d.
 
-Definition imp_predict_exp (i : imp) (g : G) (cx : option ctxs) : list (list (A * option R)) * imp * G :=
+Definition lefts (l : list (option A + list (A * option R))) : list (option A) :=
+  map (fun x => match x with inl a => a | inr _ => None end) l.
+Definition rights (l : list (option A + list (A * option R))) : list (list (A * option R)) :=
+  map (fun x => match x with inr d => d | inl _ => [] end) l.
+
+(* _imp.predict / _imp.predict_expectations; None = the call raises *)
+Definition imp_query (i : imp) (g : G) (cx : option ctxs) (orc : oracle) (is_predict : bool)
+  : option (list (option A + list (A * option R))) * imp * G :=
   match i with
-  | ICf s => let '(e, s', g') := cf_predict_exp N aeqb RG s g (ctx_len cx) in (map some_exp e, ICf s', g')
-  | ILin s => let '(e, s', g') := lin_expectations N aeqb RG s g (octx cx) in (map some_exp e, ILin s', g')
-  end.
-Definition imp_predict (i : imp) (g : G) (cx : option ctxs) : list (option A) * imp * G :=
-  match i with
-  | ICf s => let '(p, s', g') := cf_predict N aeqb RG s g (ctx_len cx) in (p, ICf s', g')
-  | ILin s => let '(e, s', g') := lin_expectations N aeqb RG s g (octx cx) in (map (argmax_first N) e, ILin s', g')
+  | ICf s =>
+      if is_predict then
+        let '(p, s', g') := cf_predict N aeqb RG s g (ctx_len cx) in (Some (map inl p), ICf s', g')
+      else
+        let '(e, s', g') := cf_predict_exp N aeqb RG s g (ctx_len cx) in (Some (map (fun d => inr (some_exp d)) e), ICf s', g')
+  | ILin s =>
+      let '(e, s', g') := lin_expectations N aeqb RG s g (octx cx) in
+      (Some (map (fun d => if is_predict then inl (argmax_first N d) else inr (some_exp d)) e), ILin s', g')
+  | INbr s =>
+      let (r, g') := nbr_predict N aeqb RG s g (octx cx) (o_knn orc) (o_sizes orc) is_predict in (r, i, g')
+  | IClu s =>
+      let (r, g') := clu_predict N aeqb RG s g (octx cx) (o_assign orc) (o_sizes orc) is_predict in (Some r, i, g')
+  | ITree s =>
+      let (r, g') := tree_predict N aeqb RG s g (o_leaf orc) (octx cx) is_predict in (Some r, i, g')
   end.
 
 Definition shape_arms (l : list (option A)) : out :=
@@ -117,21 +172,21 @@ Definition shape_exps (l : list (list (A * option R))) : out :=
 
 Definition step (m : mab) (o : op) : mab * out :=
   match o with
-  | Fit ds rs cx =>
+  | Fit ds rs cx orc =>
       if fit_args_ok m ds rs cx
-      then let (i', ok) := imp_fit (m_imp m) (m_rng m) ds rs cx in
-           if ok then (mkMab i' true (m_rng m), ODone) else (mkMab i' (m_fitted m) (m_rng m), ORejected)
+      then let '(i', g', ok) := imp_fit (m_imp m) (m_rng m) ds rs cx orc in
+           if ok then (mkMab i' true g', ODone) else (mkMab i' (m_fitted m) g', ORejected)
       else (m, ORejected)
-  | PartialFit ds rs cx =>
+  | PartialFit ds rs cx orc =>
       if fit_args_ok m ds rs cx
       then if m_fitted m
-           then let (i', ok) := imp_partial_fit (m_imp m) (m_rng m) ds rs cx in
-                (mkMab i' true (m_rng m), if ok then ODone else ORejected)
-           else let (i', ok) := imp_fit (m_imp m) (m_rng m) ds rs cx in
-                if ok then (mkMab i' true (m_rng m), ODone) else (mkMab i' (m_fitted m) (m_rng m), ORejected)
+           then let '(i', g', ok) := imp_partial_fit (m_imp m) (m_rng m) ds rs cx orc in
+                (mkMab i' true g', if ok then ODone else ORejected)
+           else let '(i', g', ok) := imp_fit (m_imp m) (m_rng m) ds rs cx orc in
+                if ok then (mkMab i' true g', ODone) else (mkMab i' (m_fitted m) g', ORejected)
       else (m, ORejected)
   | AddArm a bz =>
-      if (match bz with Some _ => negb (imp_is_ts (m_imp m)) | None => false end) then (m, ORejected)
+      if (match bz with Some _ => negb (binz_allowed (m_imp m)) | None => false end) then (m, ORejected)
       else if amem aeqb a (m_arms m) then (m, ORejected)
       else (mkMab (imp_add_arm (m_imp m) a bz) (m_fitted m) (m_rng m), ODone)
   | RemoveArm a =>
@@ -139,7 +194,7 @@ Definition step (m : mab) (o : op) : mab * out :=
       then (mkMab (imp_remove_arm (m_imp m) a) (m_fitted m) (m_rng m), ODone)
       else (m, ORejected)
   | WarmStart keys raw q =>
-      (* set(self.arms) == set(arm_to_features.keys()) ; 0 <= q <= 1 *)
+      (* 0 <= q <= 1 ; set(self.arms) == set(arm_to_features.keys()) *)
       if negb (leb N (zero N) q && leb N q (one N)) then (m, ORejected)
       else if negb (forallb (fun a => amem aeqb a keys) (m_arms m) && forallb (fun a => amem aeqb a (m_arms m)) keys)
       then (m, ORejected)
@@ -148,18 +203,28 @@ Definition step (m : mab) (o : op) : mab * out :=
                       | Some s' => (mkMab (ICf s') (m_fitted m) (m_rng m), ODone)
                       | None => (m, ORejected)
                       end
-           | ILin _ => (m, ODone)
+           | ILin s => match lin_warm_start N aeqb s (m_rng m) keys raw q with
+                       | Some s' => (mkMab (ILin s') (m_fitted m) (m_rng m), ODone)
+                       | None => (m, ORejected)
+                       end
+           | _ => (m, ODone)      (* neighbourhood policies: warm_start is `pass` *)
            end
-  | Predict cx =>
+  | Predict cx orc =>
       if negb (m_fitted m) then (m, ORejected)
       else if negb (predict_args_ok m cx) then (m, ORejected)
-      else let '(p, i', g') := imp_predict (m_imp m) (m_rng m) cx in
-           (mkMab i' (m_fitted m) g', shape_arms p)
-  | PredictExp cx =>
+      else let '(r, i', g') := imp_query (m_imp m) (m_rng m) cx orc true in
+           match r with
+           | Some l => (mkMab i' (m_fitted m) g', shape_arms (lefts l))
+           | None => (mkMab i' (m_fitted m) g', ORejected)
+           end
+  | PredictExp cx orc =>
       if negb (m_fitted m) then (m, ORejected)
       else if negb (predict_args_ok m cx) then (m, ORejected)
-      else let '(e, i', g') := imp_predict_exp (m_imp m) (m_rng m) cx in
-           (mkMab i' (m_fitted m) g', shape_exps e)
+      else let '(r, i', g') := imp_query (m_imp m) (m_rng m) cx orc false in
+           match r with
+           | Some l => (mkMab i' (m_fitted m) g', shape_exps (rights l))
+           | None => (mkMab i' (m_fitted m) g', ORejected)
+           end
   end.
 
 (* run a history, collecting what each call returned *)
@@ -171,12 +236,12 @@ Fixpoint run (m : mab) (ops : list op) : mab * list out :=
 
 Definition state_after (m : mab) (ops : list op) : mab := fst (run m ops).
 
-(* MAB.cold_arms *)
+(* MAB.cold_arms: [] whenever there is a neighbourhood policy *)
 Definition mab_cold_arms (m : mab) : list A :=
   match m_imp m with
   | ICf s => cold_arms aeqb s
-  | ILin s => filter (fun a => let x := aget_d aeqb status0 (l_status s) a in
-                               negb (st_trained x) && negb (st_warm x)) (l_arms s)
+  | ILin s => lin_cold_arms aeqb s
+  | _ => []
   end.
 
 End Mab.
